@@ -63,6 +63,11 @@ var c15Exprs = []c15Expr{
 	{"unterminated-literal", false, func(p string) string { return "../" + p + "name = 'a" }, func(p string) string { return "/" + p + "tgt[" + p + "name='a]" }},
 	{"malformed-number", false, func(p string) string { return "../" + p + "name = 1.2.3" }, func(p string) string { return "/" + p + "tgt/1" }},
 	{"relative-descendant-path", true, func(p string) string { return p + "name" }, nil},
+	// leafref only: RFC 6020 path-arg shapes around the key predicate
+	{"leafref-key-predicate", true, nil, func(p string) string { return "/" + p + "tgt[" + p + "name = current()/../" + p + "name]/" + p + "name" }},
+	{"leafref-keyexpr-without-up-step", false, nil, func(p string) string { return "/" + p + "tgt[" + p + "name = current()/" + p + "name]/" + p + "name" }},
+	{"leafref-keyexpr-without-current", false, nil, func(p string) string { return "/" + p + "tgt[" + p + "name = ../" + p + "name]/" + p + "name" }},
+	{"leafref-relative-path-ending-in-predicate", false, nil, func(p string) string { return "../" + p + "tgt[" + p + "name = current()/../" + p + "name]" }},
 }
 
 type c15Case struct {
@@ -88,6 +93,9 @@ const (
 func c15Build(placement, stmt, pu string, ex c15Expr, custom string) *c15Case {
 	c := &c15Case{placement: placement, stmt: stmt, prefixUse: pu, ex: ex}
 	if stmt == "path" && ex.path == nil && custom == "" {
+		return nil
+	}
+	if stmt != "path" && ex.must == nil && custom == "" {
 		return nil
 	}
 	if placement == "typedef-other-module" && stmt != "path" {
